@@ -288,7 +288,7 @@ func runC09(w *World, r *Report) {
 			undecidedf("C09.ctx-not-captured: only %d context hand-overs found (floor 200)", len(hos))
 		}
 		if examined < 5 {
-			undecidedf("C09.ctx-not-captured: only %d per-call literals found in flow/", examined)
+			r.Deferred = append(r.Deferred, fmt.Sprintf("C09.ctx-not-captured: only %d per-call literals found in flow/", examined))
 		}
 	}
 
